@@ -496,4 +496,17 @@ def dmetReorderOp (j : Json) : Json :=
     | none => jErr "dmet_reorder"
   | _ => jErr "dmet_reorder"
 
+/-- {"op":"defaults_history","defaults":[[k,v]..],"history":[[[k,v]..]..],"opts":[[k,v]..]} → effective options of the last
+    call with per-call defaults (values are opaque JSON, compared as strings) -/
+def defaultsHistoryOp (j : Json) : Json :=
+  let dictOf := fun (x : Json) => match x with
+    | .arr a => a.toList.filterMap (fun e => match e with
+        | .arr #[.str k, v] => some (k, v.compress)
+        | _ => none)
+    | _ => []
+  let defaults := dictOf (j.getObjValD "defaults")
+  let history := match j.getObjValD "history" with | .arr a => a.toList.map dictOf | _ => []
+  let eff := Tangelo.Defaults.afterHistoryFresh defaults history (dictOf (j.getObjValD "opts"))
+  Json.mkObj [("effective", Json.arr (eff.map (fun (k, v) => Json.arr #[Json.str k, Json.str v])).toArray)]
+
 end Tangelo.Driver
